@@ -256,6 +256,7 @@ namespace vf
             std::string tier = "quick";
             std::string workdir = ".";
             std::string tag = "w0";
+            std::string filePrefix;  // distinguishes replay files of a companion harness of the same property
         };
 
         // In-process execution of one case. Exceptions escaping run_case that are not Fail/Skip are failures too:
@@ -388,6 +389,36 @@ namespace vf
                     break;
                 }
                 pos += 4;
+            }
+            if (frame.empty() && kind.compare(0, 4, "tsan") == 0)
+            {
+                // ThreadSanitizer frames have no " in ": "#0 function /repo/src/ompl/file.cpp:line:col (binary+0x...)"
+                size_t q = 0;
+                while ((q = err.find("/repo/src/ompl/", q)) != std::string::npos)
+                {
+                    size_t ls = err.rfind('\n', q);
+                    std::string line = err.substr(ls == std::string::npos ? 0 : ls + 1, q - (ls == std::string::npos ? 0 : ls + 1));
+                    size_t hash = line.find('#');
+                    size_t sp = hash == std::string::npos ? std::string::npos : line.find(' ', hash);
+                    if (sp != std::string::npos)
+                    {
+                        std::string fn = line.substr(sp + 1);
+                        fn = fn.substr(0, fn.find_first_of("(<"));
+                        while (!fn.empty() && fn.back() == ' ')
+                            fn.pop_back();
+                        std::string file = err.substr(q + 15);
+                        file = file.substr(0, file.find(':'));
+                        size_t sl = file.rfind('/');
+                        if (sl != std::string::npos)
+                            file = file.substr(sl + 1);
+                        if (!fn.empty())
+                        {
+                            frame = file + "/" + fn;
+                            break;
+                        }
+                    }
+                    q += 15;
+                }
             }
             o.key = "san/" + kind + (frame.empty() ? "" : "/" + frame);
             o.msg = err.size() > 3000 ? err.substr(0, 3000) : err;
@@ -753,7 +784,7 @@ namespace vf
             mkdir(dir.c_str(), 0755);
             char hb[32];
             snprintf(hb, sizeof hb, "%016llx", (unsigned long long)fnv1a(sm.data(), sm.size()));
-            std::string base = dir + "/" + sanitizeName(first.key) + "-" + hb;
+            std::string base = dir + "/" + st.filePrefix + sanitizeName(first.key) + "-" + hb;
             {
                 std::ofstream f(base + ".case", std::ios::binary);
                 f.write((const char *)sm.data(), sm.size());
@@ -920,7 +951,8 @@ namespace vf
             uint64_t workers = strtoull(args.get("workers", "1").c_str(), nullptr, 10);
             size_t maxLen = strtoull(args.get("maxlen", std::to_string(cfg.maxLen)).c_str(), nullptr, 10);
             std::string out = args.get("out", st.workdir + "/out.json");
-            st.tag = std::string(cfg.property) + ".w" + std::to_string(worker);
+            st.tag = std::string(cfg.property) + args.get("fileprefix") + ".w" + std::to_string(worker);
+            st.filePrefix = args.get("fileprefix");
             double t0 = now();
 
             std::vector<uint64_t> idxs;
